@@ -8,6 +8,8 @@ HDR = "dict[str,str]"
 def register(db):
     collab.declare(db)
     register_wsdl_parts(db)
+    register_map_binding(db)
+    register_operation_messages(db)
     P = ["C17"]
     assume_method(db, "Transport", "post", returns="u:Bytes", pure=True, raises=["ConnectionError"] if False else [])
     assume_method(db, "XmlParserObj", "from_bytes", returns="u:Any", pure=True, raises=["ParserError"])
@@ -124,9 +126,121 @@ def register_wsdl_parts(db):
         raises={"CodegenError": True}, properties=["C17"],
     ))
     db.add(Contract(
+        f"{DM}.map_binding_message_parts", variant="parts-list",
+        params={"cls": the_class, "definitions": "opaque:Definitions", "message": "str", "extended": extended, "ns_map": "opaque:PyDict"},
+        requires=["not ('part' in extended.attributes)", "'parts' in extended.attributes", "len(message) > 0", MSG_OK],
+        ensures=[("a-part-is-selected-iff-its-name-is-one-of-the-listed-tokens",
+                  "implies(comp_filter_count() == 1, comp_filter_condition() == (comp_filter_element().name in extended.attributes['parts'].split()))"),
+                 ("parts-handed-on-once", "called('DefinitionsMapper.build_parts_attributes') == 1")],
+        raises={"CodegenError": True}, properties=["C17"],
+    ))
+    db.add(Contract(
         f"{DM}.map_binding_message_parts", variant="no-part-selected",
         params={"cls": the_class, "definitions": "opaque:Definitions", "message": "str", "extended": extended, "ns_map": "opaque:PyDict"},
         requires=["not ('part' in extended.attributes)", "not ('parts' in extended.attributes)", "len(message) > 0", MSG_OK],
         ensures=[("all-parts-of-the-message-unfiltered", "comp_filter_count() == 0 and called('DefinitionsMapper.build_parts_attributes') == 1")],
         raises={"CodegenError": True}, properties=["C17"],
+    ))
+
+
+def register_map_binding(db):
+    """DefinitionsMapper.map_binding: every operation of a binding is mapped with *its own* settings - the binding /
+    port level soap attributes (style, transport, location) overridden by the attributes of that operation's own
+    extension elements (soapAction, style).  The dictionary handed in is the binding's: it must come out unchanged, and
+    what one operation adds (its soapAction) must not reach the next operation."""
+    DM = "xsdata.codegen.mappers.definitions:DefinitionsMapper"
+    assume_method(db, "Binding", "unique_operations", returns="seq[u:BindingOperation]", pure=True)
+    assume_method(db, "PortType", "find_operation", returns="u:PortTypeOperation", pure=True, raises=["CodegenError"])
+    collab.field(db, "BindingOperation", "extended_elements", "seq[u:Any]")
+    collab.field(db, "BindingOperation", "name", "str")
+    collab.field(db, "PortType", "name", "str")
+    db.add(Contract(f"{DM}.attributes", variant="call-view", trusted=True, call_default=True, params={}, returns="dict[str,str]",
+                    note="call-site view: some fresh str -> str dictionary (the soap attributes of the extension elements)"))
+    db.add(Contract(f"{DM}.map_binding_operation", variant="call-view", trusted=True, call_default=True, params={},
+                    returns="seq[u:Class]", raises={"CodegenError": True, "AssertionError": True},
+                    note="call-site view: reads its config argument (recorded on the ghost trace), changes nothing"))
+
+    def the_class(mk, base):
+        from pyvc.values import ClassRef
+        return ClassRef("xsdata.codegen.mappers.definitions", "DefinitionsMapper")
+
+    OP = "DefinitionsMapper.map_binding_operation"
+    OWN = "call_result('DefinitionsMapper.attributes')"
+    db.add(Contract(
+        f"{DM}.map_binding", variant="settings-per-operation",
+        params={"cls": the_class, "definitions": "opaque:Definitions", "binding": "opaque:Binding", "port_type": "opaque:PortType",
+                "config": "dict[str,str]"},
+        ghost={"k": "str"},
+        ensures=[("binding-settings-unchanged", "same_dict(config, old(config))")],
+        raises={"CodegenError": True, "AssertionError": True},
+        loops=[Loop(invariants=["same_dict(config, old(config))"], header="binding.unique_operations()",
+                    step=[("operation-mapped-once", f"called('{OP}') == 1 and called('DefinitionsMapper.attributes') == 1"),
+                          ("own-attributes-override", f"implies(k in {OWN}, k in call_arg('{OP}', 4) and call_arg('{OP}', 4)[k] == {OWN}[k])"),
+                          ("binding-settings-inherited", f"implies(k in old(config) and not (k in {OWN}), "
+                                                         f"k in call_arg('{OP}', 4) and call_arg('{OP}', 4)[k] == old(config)[k])"),
+                          ("nothing-else", f"implies(k in call_arg('{OP}', 4), k in old(config) or k in {OWN})"),
+                          ("operation-matched-by-name", "call_arg('PortType.find_operation', 0) == operation.name "
+                                                        f"and call_arg('{OP}', 2) is operation and call_arg('{OP}', 5) == port_type.name")])],
+        properties=["C17"],
+    ))
+
+
+def register_operation_messages(db):
+    """DefinitionsMapper.map_binding_operation_messages: which envelope classes an operation gets and how they are
+    parameterised - the input envelope is named <name>_input and (for rpc) wraps its parts in an element named after the
+    *operation*, the output envelope is named <name>_output, takes its wrapper name from the message, and is the only
+    one that gets the Fault class; with rpc style the message class of each direction is emitted before its envelope."""
+    DM = "xsdata.codegen.mappers.definitions:DefinitionsMapper"
+    collab.field(db, "BindingOperation", "input", "u:BindingMessage|None")
+    collab.field(db, "BindingOperation", "output", "u:BindingMessage|None")
+    collab.field(db, "PortTypeOperation", "input", "u:PortTypeMessage")
+    collab.field(db, "PortTypeOperation", "output", "u:PortTypeMessage")
+    db.always_truthy.add("BindingMessage")  # dataclass instances without __bool__/__len__: always true
+    for meth, ret in (("build_envelope_class", "u:Class"), ("build_message_class", "u:Class"), ("build_envelope_fault", None)):
+        db.add(Contract(f"{DM}.{meth}", variant="call-view", trusted=True, call_default=True, params={}, returns=ret,
+                        raises={"CodegenError": True, "StopIteration": True},
+                        note=f"call-site view of {meth}: recorded on the ghost trace with its arguments"))
+
+    def the_class(mk, base):
+        from pyvc.values import ClassRef
+        return ClassRef("xsdata.codegen.mappers.definitions", "DefinitionsMapper")
+
+    EC, FC, MC = (f"DefinitionsMapper.{m}" for m in ("build_envelope_class", "build_envelope_fault", "build_message_class"))
+    PARAMS = {"cls": the_class, "definitions": "opaque:Definitions", "binding_operation": "opaque:BindingOperation",
+              "port_type_operation": "opaque:PortTypeOperation", "name": "str", "style": "str", "namespace": "str|None"}
+    IN = (f"call_arg('{EC}', 2, 0) is binding_operation.input and call_arg('{EC}', 3, 0) is port_type_operation.input "
+          f"and call_arg('{EC}', 4, 0) == name + '_input' and call_arg('{EC}', 5, 0) == style and call_arg('{EC}', 6, 0) == namespace "
+          f"and call_arg('{EC}', 7, 0) == binding_operation.name")
+    OUT = (f"call_arg('{EC}', 2, {{n}}) is binding_operation.output and call_arg('{EC}', 3, {{n}}) is port_type_operation.output "
+           f"and call_arg('{EC}', 4, {{n}}) == name + '_output' and call_arg('{EC}', 5, {{n}}) == style and call_arg('{EC}', 6, {{n}}) == namespace "
+           f"and call_arg('{EC}', 7, {{n}}) is None")
+    for style_name, style_req in (("document", "style != 'rpc'"), ("rpc", "style == 'rpc'")):
+        rpc = style_name == "rpc"
+        db.add(Contract(
+            f"{DM}.map_binding_operation_messages", variant=f"input-and-output-{style_name}", params=PARAMS,
+            requires=["binding_operation.input is not None", "binding_operation.output is not None", style_req],
+            ensures=[("two-envelopes", f"called('{EC}') == 2 and called('{MC}') == {2 if rpc else 0}"),
+                     ("input-envelope-wraps-in-the-operation-name", IN),
+                     ("output-envelope-takes-the-message-name", OUT.format(n=1)),
+                     ("only-the-output-envelope-gets-the-fault", f"called('{FC}') == 1 and call_arg('{FC}', 3) is call_result('{EC}', 1) "
+                                                                 f"and call_arg('{FC}', 2) is port_type_operation"),
+                     ("emitted-in-order", (f"len(result) == 4 and result[0] is call_result('{MC}', 0) and result[1] is call_result('{EC}', 0) "
+                                           f"and result[2] is call_result('{MC}', 1) and result[3] is call_result('{EC}', 1) "
+                                           f"and call_arg('{MC}', 2, 0) is port_type_operation.input and call_arg('{MC}', 2, 1) is port_type_operation.output") if rpc else
+                                          f"len(result) == 2 and result[0] is call_result('{EC}', 0) and result[1] is call_result('{EC}', 1)")],
+            raises={"CodegenError": True, "StopIteration": True}, properties=["C17"],
+        ))
+    db.add(Contract(
+        f"{DM}.map_binding_operation_messages", variant="one-way-input-only", params=PARAMS,
+        requires=["binding_operation.input is not None", "binding_operation.output is None", "style != 'rpc'"],
+        ensures=[("one-envelope-no-fault", f"called('{EC}') == 1 and called('{FC}') == 0 and len(result) == 1"),
+                 ("input-envelope-wraps-in-the-operation-name", IN)],
+        raises={"CodegenError": True, "StopIteration": True}, properties=["C17"],
+    ))
+    db.add(Contract(
+        f"{DM}.map_binding_operation_messages", variant="output-only", params=PARAMS,
+        requires=["binding_operation.input is None", "binding_operation.output is not None", "style != 'rpc'"],
+        ensures=[("one-envelope-with-fault", f"called('{EC}') == 1 and called('{FC}') == 1 and len(result) == 1"),
+                 ("output-envelope-takes-the-message-name", OUT.format(n=0))],
+        raises={"CodegenError": True, "StopIteration": True}, properties=["C17"],
     ))
